@@ -183,6 +183,9 @@ func (f *eddsaKey) newEdDSA() (interface{}, error) {
 	if bytes.Equal(f.oid, oidEd25519) {
 		// ... the octet string specifying the point is prefixed with the octet 0x40.
 		// https://datatracker.ietf.org/doc/html/draft-ietf-openpgp-rfc4880bis-01#section-13.3
+		if len(f.p.bytes) != 1+ed25519.PublicKeySize || f.p.bytes[0] != 0x40 {
+			return nil, errors.UnsupportedError("failed to parse EdDSA point")
+		}
 		return ed25519.PublicKey(f.p.bytes[1:]), nil
 	}
 	return nil, errors.UnsupportedError("unknown EdDSA curve")
@@ -192,6 +195,9 @@ func (f *eddsaKey) newX25519() (interface{}, error) {
 	if bytes.Equal(f.oid, oidX25519) {
 		// ... the octet string specifying the point is prefixed with the octet 0x40.
 		// https://datatracker.ietf.org/doc/html/draft-ietf-openpgp-rfc4880bis-01#section-13.3
+		if len(f.p.bytes) != 33 || f.p.bytes[0] != 0x40 {
+			return nil, errors.UnsupportedError("failed to parse ECDH point")
+		}
 		return f.p.bytes[1:], nil
 	}
 	return nil, errors.UnsupportedError("unknown ECDH curve")
